@@ -48,7 +48,10 @@ def jobs(tier):
            ("auto.monotone", "job_auto", {}),
            ("auto.path", "job_auto_path", {}),
            ("metafile.int", "job_metafile", dict(kind="int")),
-           ("config.route", "job_config", {})]
+           ("config.route", "job_config", dict(route="config-pass")),
+           ("auto.history.grow-in-place", "job_auto_history", {})]
+    for n in (1, 2, 3):
+        out.append(("config.end-to-end.n%d" % n, "job_config_e2e", dict(n=n, route="config")))
     for n in range(1, (6 if tier == "quick" else 8) + 1):
         out.append(("str.n%d" % n, "job_str", dict(n=n)))
         if n <= 5 or tier != "quick":
@@ -320,7 +323,7 @@ def job_metafile(E, kind, n=0, _mutants=None):
         E.check(neg(valid(den)), "C12.metafile.valid-accepted")
 
 
-def job_config(E, _mutants=None):
+def job_config(E, route=None, _mutants=None):
     """The configuration-file route hands the string to the creator unchanged."""
     from symx.loader import BenTok
     fs = AFS()
@@ -337,6 +340,68 @@ def job_config(E, _mutants=None):
     E.check(kwargs.get("piece_length") is s, "C12.config.passes-through", "kwargs=%r" % (kwargs,))
 
 
+def job_auto_history(E, _mutants=None):
+    """Automatic piece length on the second creation in one process, after a file
+    below a sub-directory grew in place (no directory entry changes)."""
+    fs = AFS()
+    s0 = E.int("s0", 0, 2 ** 40)
+    s1 = E.int("s1", 0, 2 ** 40)
+    E.assume(s1 >= s0)
+    fs.add("/data/name/sub/a", ("f", 0), s0)
+    fs.add("/data/name/b", ("f", 1), 10)
+    w = World(fs, mutants=_mutants)
+    U, T = w.mod("utils"), w.mod("torrent")
+    try:
+        m0 = T.MetaFile(path="/data/name")
+        g0 = m0.meta["info"]["piece length"]
+        fs.add("/data/name/sub/a", ("f", 0), s1)
+        m1 = T.MetaFile(path="/data/name")
+        g1 = m1.meta["info"]["piece length"]
+    except Exception as ex:  # noqa: BLE001
+        E.fail("C12.auto.no-exception", "%s: %s" % (type(ex).__name__, ex))
+        return
+    fresh = World(fs.clone(), mutants=_mutants).mod("utils").get_piece_length(s1 + 10)
+    E.check(g1 == fresh, "C12.auto.history", "second creation chose %r, the payload as it is now needs %r" % (g1, fresh))
+    E.check(g0 <= g1, "C12.auto.monotone-in-process", "the choice decreased from %r to %r although the payload grew" % (g0, g1))
+
+
+def job_config_e2e(E, n, route=None, _mutants=None):
+    """piece-length given in the configuration file must mean what the same string means as a keyword."""
+    fs = AFS()
+    fs.add("/data/name", ("f", 0), 5)
+    s = strs.SymStr.fresh(E, "s", n)
+    E.note("strlen", n)
+    fs.add_token("/cfg/torrentfile.ini", ("INI", {"config": {"piece-length": s}}))
+    w = World(fs, mutants=_mutants)
+    C, T, U = w.mod("commands"), w.mod("torrent"), w.mod("utils")
+
+    def outcome(kwargs):
+        try:
+            m = T.MetaFile(path="/data/name", **kwargs)
+            return ("ok", m.meta["info"]["piece length"])
+        except U.PieceLengthValueError:
+            return ("plve", None)
+        except Unsupported:
+            raise
+        except Exception as ex:  # noqa: BLE001
+            return ("exc", type(ex).__name__)
+    kw = {}
+    try:
+        C.parse_config_file("/cfg/torrentfile.ini", kw)
+    except Unsupported:
+        raise
+    except Exception as ex:  # noqa: BLE001
+        E.fail("C12.config.no-exception", "%s: %s" % (type(ex).__name__, ex))
+        return
+    a = outcome(kw)
+    b = outcome({"piece_length": s})
+    if w.havoc_used:
+        return
+    E.check(a[0] == b[0], "C12.config.same-verdict", "config route: %r, keyword route: %r" % (a, b))
+    if a[0] == b[0] == "ok":
+        E.check(a[1] == b[1], "C12.config.same-value", "config route records %r, keyword route %r" % (a[1], b[1]))
+
+
 def post(results, tier):
     from harness import lemmas
     log = set()
@@ -346,7 +411,75 @@ def post(results, tier):
     return lemmas.fpdiv_jobs(sorted(log, key=repr))
 
 
+def _replay_auto_history(model, workdir):
+    """Sparse files stand in for the payload (only sizes matter to MetaFile)."""
+    s0, s1 = int(model["s0"]), int(model["s1"])
+    root = os.path.join(workdir, "data", "name")
+    os.makedirs(os.path.join(root, "sub"))
+    with open(os.path.join(root, "b"), "wb") as f:
+        f.write(b"0123456789")
+    a = os.path.join(root, "sub", "a")
+    with open(a, "wb") as f:
+        f.truncate(s0)
+    mods = cr.real_torrentfile()
+    T, U = mods["torrentfile.torrent"], mods["torrentfile.utils"]
+    try:
+        g0 = T.MetaFile(path=root).meta["info"]["piece length"]
+        with open(a, "r+b") as f:
+            f.truncate(s1)
+        g1 = T.MetaFile(path=root).meta["info"]["piece length"]
+    except Exception as ex:  # noqa: BLE001
+        return ["C12.auto.no-exception: %s" % ex]
+    want = 16384
+    while (s1 + 10) / want > 1000 and want < 2 ** 24:
+        want *= 2
+    bad = []
+    if g1 != want:
+        bad.append("C12.auto.history (%r vs %r)" % (g1, want))
+    if g0 > g1:
+        bad.append("C12.auto.monotone-in-process")
+    return bad
+
+
+def _replay_config(params, model, notes, workdir):
+    n = int(notes.get("strlen", params.get("n", 3)))
+    sval = strs.concretize(model, "s", n)
+    import refconc
+    p = os.path.join(workdir, "data", "name")
+    refconc.write_file(p, b"12345")
+    ini = os.path.join(workdir, "t.ini")
+    with open(ini, "w", encoding="utf-8") as f:
+        f.write("[config]\npiece-length = %s\n" % sval)
+    mods = cr.real_torrentfile()
+    C, T, U = mods["torrentfile.commands"], mods["torrentfile.torrent"], mods["torrentfile.utils"]
+
+    def outcome(kwargs):
+        try:
+            return ("ok", T.MetaFile(path=p, **kwargs).meta["info"]["piece length"])
+        except U.PieceLengthValueError:
+            return ("plve", None)
+        except Exception as ex:  # noqa: BLE001
+            return ("exc", type(ex).__name__)
+    kw = {}
+    try:
+        C.parse_config_file(ini, kw)
+    except Exception as ex:  # noqa: BLE001
+        return ["C12.config.no-exception: %s" % ex]
+    import configparser
+    cp = configparser.ConfigParser()
+    cp.read(ini)
+    as_read = cp["config"]["piece-length"]          # what configparser itself hands over (it strips whitespace)
+    a, b = outcome(kw), outcome({"piece_length": as_read})
+    if "n" not in params:
+        return [] if kw.get("piece_length") == as_read else ["C12.config.passes-through"]
+    return [] if a == b else ["C12.config.same-verdict (%r vs %r)" % (a, b)]
+
+
 def replay(params, model, notes, workdir, seed):
+    if params.get("route") in ("config", "config-pass"):
+        return _replay_config(params, model, notes, workdir)
+    if "s1" in model and "s0" in model and "x" not in model and "s.g0" not in model and "a" not in model:
+        return _replay_auto_history(model, workdir)
     if "x" in model and "s.g0" not in model:
         x = int(model["x"])
         if "s0" in model:     # metafile job
